@@ -130,6 +130,35 @@ pub fn c13(args: &Args) {
             }
         }
     }
+    // non-integer inputs: a / 2^s for integer vectors a (exact in binary64), results scaled back by the exact power of two before
+    // they are quantised -- the ground truth and the relative tolerance are those of the integer vectors.  Signing transforms
+    // targets c/q * F-hat, not integers: a staging step that is exact on integers, or an absolute threshold, shows only here.
+    for w in [1usize, 3, 6, 9, 10] {
+        let n = 1usize << w;
+        for (amax, bmax, sh, tag) in [(100i64, 50i64, 30i32, "dyadic-2^-30"), (1 << 14, 1 << 6, 24, "dyadic-2^-24"), (1, 1, 40, "dyadic-2^-40-units")] {
+            let a: Vec<i64> = (0..n).map(|i| if amax == 1 { (i == n / 3) as i64 } else { rng.gen_range(-amax..=amax) }).collect();
+            let b: Vec<i64> = (0..n).map(|i| if bmax == 1 { (i == n - 1) as i64 } else { rng.gen_range(-bmax..=bmax) }).collect();
+            let sc = (2.0f64).powi(-sh);
+            let up = (2.0f64).powi(sh);
+            let fa: Vec<C> = a.iter().map(|&x| (x as f64 * sc, 0.0)).collect();
+            let fb: Vec<C> = b.iter().map(|&x| (x as f64 * sc, 0.0)).collect();
+            let scale = |v: Vec<C>, f: f64| -> Vec<C> { v.into_iter().map(|(re, im)| (re * f, im * f)).collect() };
+            out.emit(comp_event("mul", n, &a, &b, guarded(|| scale(verif::cifft(&verif::chadamard_mul(&verif::cfft(&fa), &verif::cfft(&fb))), up * up)), tag));
+            out.emit(comp_event("roundtrip", n, &a, &[], guarded(|| scale(verif::cifft(&verif::cfft(&fa)), up)), tag));
+            if n >= 2 {
+                out.emit(comp_event("mergesplit", n, &a, &[], guarded(|| {
+                    let (s0, s1) = verif::csplit(&verif::cfft(&fa));
+                    scale(verif::cifft(&verif::cmerge(&s0, &s1)), up)
+                }), tag));
+                out.emit(comp_event("split", n, &a, &[], guarded(|| {
+                    let (s0, s1) = verif::csplit(&verif::cfft(&fa));
+                    let mut v = verif::cifft(&s0);
+                    v.extend(verif::cifft(&s1));
+                    scale(v, up)
+                }), tag));
+            }
+        }
+    }
     // prefix-related inputs in consecutive calls, growing then shrinking
     {
         let v: Vec<i64> = (0..1024).map(|i| if i == 0 { 1 } else { rng.gen_range(-300..=300) }).collect();
